@@ -5,6 +5,7 @@ nothing.  Property theorems only; helper lemmas live in Lemmas/.
 import PkgsrcVerif.Lemmas.Distinfo
 import PkgsrcVerif.Lemmas.EntryType
 import PkgsrcVerif.Spec.Distinfo
+import PkgsrcVerif.Lemmas.DistinfoComplete
 open M L
 
 /-- lines that are not recognised (comments, blank lines, unknown algorithms, unparsable
@@ -164,3 +165,57 @@ theorem C11_lands_by_rule (d : Distinfo) (p : Bytes) (dg : Digest) (h : Bytes) :
   unfold Distinfo.updateChecksum
   simp only
   split <;> exact ⟨_, rfl⟩
+
+/-! ### completeness: no recognised line is dropped because of the bytes in its file name -/
+
+/-- **Every well-formed checksum line is recognised, whatever bytes its name contains.**  The
+    line is `lead ALG s1 (name) s2 mid s3 hash tail` where `lead` is any run of ASCII blanks
+    (possibly empty), `s1 s2 s3` any NON-EMPTY runs of ASCII blanks (spaces, tabs, FF, CR),
+    `ALG` a spelling `Digest::from_str` accepts, `name` ANY bytes that are not ASCII blanks —
+    bytes >= 0x80, invalid UTF-8 such as a lone E9, NEL 85 / NBSP A0, parentheses — `mid` the
+    third field (`=` in the strict form; the parser does not look at it), `hash` non-empty UTF-8
+    without blanks, and `tail` empty or a blank followed by anything.  It is recorded with
+    exactly that name and hash. -/
+theorem C11_complete_checksum_line (lead alg s1 fn s2 mid s3 hash tail : Bytes) (d : Digest)
+    (hl : L.AllWs lead) (ha : L.AlgWord alg d) (h1 : L.AllWs s1) (h1n : s1 ≠ []) (hf : L.NoWs fn)
+    (h2 : L.AllWs s2) (h2n : s2 ≠ []) (hm : L.NoWs mid) (hmn : mid ≠ []) (h3 : L.AllWs s3) (h3n : s3 ≠ [])
+    (hh : L.NoWs hash) (hhn : hash ≠ []) (hu : isUtf8' hash = true) (ht : L.TailOk tail) :
+    lineFromBytes (L.csLine lead alg s1 fn s2 mid s3 hash tail) = .checksum d fn hash :=
+  L.lineFromBytes_csLine lead alg s1 fn s2 mid s3 hash tail d hl ha h1 h1n hf h2 h2n hm hmn h3 h3n hh hhn hu ht
+
+/-- the six canonical spellings are such algorithm words -/
+theorem C11_canonical_alg_words (d : Digest) : L.AlgWord (ascii d.name) d := L.algWord_canonical d
+
+/-- **Every well-formed size line is recognised**: `Size (name) = N` with a `u64` decimal `N`,
+    optionally followed by ` bytes` (or anything else after a blank), same freedom for blanks
+    and name bytes. -/
+theorem C11_complete_size_line (lead s1 fn s2 mid s3 value tail : Bytes) (n : Nat)
+    (hl : L.AllWs lead) (h1 : L.AllWs s1) (h1n : s1 ≠ []) (hf : L.NoWs fn)
+    (h2 : L.AllWs s2) (h2n : s2 ≠ []) (hm : L.NoWs mid) (hmn : mid ≠ []) (h3 : L.AllWs s3) (h3n : s3 ≠ [])
+    (hv : L.NoWs value) (hvn : value ≠ []) (hu : isUtf8' value = true)
+    (hp : parseU64? (value.map fun x => Char.ofNat x.toNat) = some n) (ht : L.TailOk tail) :
+    lineFromBytes (L.csLine lead (ascii "Size") s1 fn s2 mid s3 value tail) = .size fn n :=
+  L.lineFromBytes_szLine lead s1 fn s2 mid s3 value tail n hl h1 h1n hf h2 h2n hm hmn h3 h3n hv hvn hu hp ht
+
+/-- **No recognised line is dropped by the document parser**: if any line of the text is
+    recognised as a checksum for `name`, then the parsed Distinfo has an entry under exactly that
+    name (component-wise key) in the map the statement's classification rule names, and that
+    entry carries the checksum — whatever lines come before or after (later lines only add). -/
+theorem C11_no_checksum_dropped (t l fn h : Bytes) (dg : Digest) (hl : l ∈ splitNl' t)
+    (hr : lineFromBytes l = .checksum dg fn h) :
+    ∃ e, ((distinfoFromBytes t).mapOf (S.entryType fn)).get fn = some e ∧ (dg, h) ∈ e.checksums := by
+  rw [← C11_classification]
+  exact L.fold_records_sum (splitNl' t) {} l hl fn dg h hr
+
+/-- … and likewise a recognised size line leaves its file with a recorded size -/
+theorem C11_no_size_dropped (t l fn : Bytes) (n : Nat) (hl : l ∈ splitNl' t)
+    (hr : lineFromBytes l = .size fn n) :
+    ∃ e n', ((distinfoFromBytes t).mapOf (S.entryType fn)).get fn = some e ∧ e.size = some n' := by
+  rw [← C11_classification]
+  exact L.fold_records_size (splitNl' t) {} l hl fn n hr
+
+/-- non-vacuity: a line with tabs, a leading blank, a name made of a lone E9, NEL and NBSP bytes
+    and a closing parenthesis inside, and a trailing comment -/
+example : lineFromBytes (L.csLine [32, 9] (ascii "SHA512") [9, 32] [0xE9, 0x85, 0xA0, 41, 0x41] [32] [61] [9]
+    (ascii "abc") [32, 35]) = .checksum .sha512 [0xE9, 0x85, 0xA0, 41, 0x41] (ascii "abc") := by
+  decide +kernel
